@@ -194,6 +194,25 @@ int ops_merger(char **args, int na)
 		a->nsrc++;
 		puts("ok"); return 0;
 	}
+	if (!strcmp(op, "m.write") && na >= 2) {
+		/* mtbl_source_write(merger source, fresh writer); reply: ok|fail <bytes of the finished file> */
+		struct obj *m = getobj(args[1], K_MERGER); if (!m) return -1;
+		struct mtbl_writer_options *wo = mtbl_writer_options_init();
+		mtbl_writer_options_set_compression(wo, MTBL_COMPRESSION_NONE);
+		vf_min_block_size = 16;
+		mtbl_writer_options_set_block_size(wo, kvnum(args + 2, na - 2, "bs", 32));
+		mtbl_writer_options_set_block_restart_interval(wo, kvnum(args + 2, na - 2, "ri", 2));
+		char path[320]; snprintf(path, sizeof path, "%s/m%d_out.mtbl", vf_tmpdir, m->id); unlink(path);
+		struct mtbl_writer *w = mtbl_writer_init(path, wo);
+		mtbl_writer_options_destroy(&wo);
+		if (!w) return -1;
+		mtbl_res r = mtbl_source_write(mtbl_merger_source(m->p), w);
+		mtbl_writer_destroy(&w);
+		size_t n = 0; uint8_t *f = read_file(path, &n); unlink(path);
+		if (!f) return -1;
+		printf("%s ", r == mtbl_res_success ? "ok" : "fail"); puthex(stdout, f, n); putchar('\n'); free(f);
+		return 0;
+	}
 	if (!strcmp(op, "m.it") && na >= 4) {
 		struct obj *m = getobj(args[1], K_MERGER); if (!m) return -1;
 		struct obj *o = newobj(args[2], K_ITER); if (!o) return -1;
